@@ -462,7 +462,7 @@ def _create_sbml_variables(
             ar = sbml_model.createInitialAssignment()
             ar.setId(_convert_id_to_sbml(id_=name, prefix="IA"))
             ar.setName(_convert_id_to_sbml(id_=name, prefix="IA"))
-            ar.setVariable(_convert_id_to_sbml(id_=name, prefix="IA"))
+            ar.setSymbol(_convert_id_to_sbml(id_=name, prefix="IA"))
             ar.setMath(_sbmlify_fn(init.fn, init.args))
         else:
             cpd.setInitialConcentration(float(init))
@@ -513,7 +513,7 @@ def _create_sbml_parameters(
             ar = sbml_model.createInitialAssignment()
             ar.setId(_convert_id_to_sbml(id_=name, prefix="IA"))
             ar.setName(_convert_id_to_sbml(id_=name, prefix="IA"))
-            ar.setVariable(_convert_id_to_sbml(id_=name, prefix="IA"))
+            ar.setSymbol(_convert_id_to_sbml(id_=name, prefix="IA"))
             ar.setMath(_sbmlify_fn(init.fn, init.args))
         else:
             k.setValue(float(init))
